@@ -24,6 +24,10 @@ pub fn quiet<T>(f: impl FnOnce() -> T) -> Result<T, String> {
     r.map_err(|e| e.downcast_ref::<String>().cloned().or_else(|| e.downcast_ref::<&str>().map(|s| s.to_string())).unwrap_or_else(|| "panic".into()))
 }
 
+/// what the search is working on (reported when the library panics inside a search)
+pub static CONTEXT: std::sync::Mutex<String> = std::sync::Mutex::new(String::new());
+pub fn ctx(s: String) { if let Ok(mut g) = CONTEXT.lock() { *g = s; } }
+
 fn seed() -> u64 { std::env::var("VERIF_SEED").ok().and_then(|s| s.parse().ok()).unwrap_or(0) }
 
 // ------------------------------------------------------------------------------------------------ generators
@@ -384,6 +388,7 @@ pub fn c01_c02_c18() -> Result<u64, String> {
         }
     }
     for (tiles, c, p) in cases { n += 1;
+        ctx(format!("writing/reading an archive of {} tiles, {c:?}, start position {p}", tiles.len()));
         let mut meta = serde_json::Map::new(); meta.insert("k".into(), serde_json::json!({"n": [1, 2, {"x": null}]}));
         let mut pm = build(&tiles, c, &meta);
         pm.min_zoom = 1; pm.max_zoom = 17; pm.center_zoom = 9; pm.tile_compression = Compression::Brotli; pm.tile_type = TileType::WebP;
